@@ -60,6 +60,12 @@ ctx(any, number_codes, N, R) :- number_codes(N, R).
 ctx(any, number_chars, N, R) :- number_chars(N, R).
 ctx(any, format_d, N, R) :- phrase(format_("~d|~w|~q|~a", [N, N, N, x]), R).
 ctx(any, assert, N, R) :- retractall(q(_, _)), assertz(q(0, a)), assertz(q(N, b)), assertz(q(foo, c)), findall(K-V, q(K, V), R).
+ctx(any, db_lookup, N, R) :- number_codes(N, Cs), number_codes(L, Cs), retractall(q(_, _)), assertz(q(0, a)), assertz(q(N, b)), assertz(q(f(x), c)), assertz(q(1.5, d)), findall(V, q(L, V), R).
+ctx(any, db_lookup2, N, R) :- number_codes(N, Cs), number_codes(L, Cs), retractall(q(_, _)), assertz(q(0, a)), assertz(q(L, b)), assertz(q(f(x), c)), findall(V, q(N, V), R).
+ctx(any, db_retract, N, R) :- number_codes(N, Cs), number_codes(L, Cs), retractall(q(_, _)), assertz(q(N, b)), assertz(q(zz, c)), ( retract(q(L, _)) -> findall(K, q(K, _), R) ; R = not_retracted ).
+ctx(any, static_lookup, N, R) :- findall(V, sq(N, V), R).
+ctx(any, static_lookup2, N, R) :- findall(V, sq2(k, N, V), R).
+ctx(any, struct_arg, N, R) :- findall(V, sq3(f(N), V), R).
 ctx(any, copy, N, R) :- copy_term(f(N, _), R).
 ctx(any, findall, N, R) :- findall(N, member(_, [a, b]), R).
 ctx(any, functor0, N, R) :- functor(R, N, 0).
@@ -99,6 +105,15 @@ value(any, V) :- member(V, [0, 1, 2, 3, 7, 255, 256, 65536, -1, -2, -255, 429496
                             36028797018963967, 36028797018963968, -36028797018963968, -36028797018963969, 18014398509481984,
                             9223372036854775807, -9223372036854775808, 18446744073709551616, -18446744073709551616]).
 value(small, V) :- between(0, 9, V).
+sq(V, V) :- value(any, V).
+sq(V, lit7) :- V = 7.
+sq(36028797018963968, lit_big).
+sq(0, lit0).
+sq(-1, lit_m1).
+sq(a, atom).
+sq(18446744073709551616, lit_2_64).
+sq2(k, 0, z). sq2(k, 36028797018963968, big). sq2(k, 7, seven). sq2(j, 7, other). sq2(k, -36028797018963969, negbig).
+sq3(f(0), z). sq3(f(36028797018963968), big). sq3(f(7), seven). sq3(g(7), other). sq3(f(-1), m1).
 result(G, R, Out) :- ( catch(G, E, Out0 = err(E)) -> ( var(Out0) -> Out0 = ok(R) ; true ) ; Out0 = failed ), copy_term(Out0, Out), numbervars(Out, 0, _).
 main :-
     ( member(Kind, [any, small]), value(Kind, V), clause(ctx(Kind0, C, _, _), _), ( Kind0 == any ; Kind == small ),
